@@ -50,35 +50,57 @@ Section Markdown.
         end
     end.
 
-  (* one event, after the cursor has been advanced to tc; bs = bytes of the source *)
-  Definition mk_step (src : text) (bs : list N) (stack : list md_tag) (tc : nat) (e : mevent)
-    : res (list token * list md_tag) :=
+  (* the events of the `matches!(event, SoftBreak | HardBreak | InlineMath | DisplayMath | Code | Text | Html | InlineHtml)`
+     of the covered_until guard (8b26ba4) *)
+  Definition is_leaf (e : mev) : bool :=
+    match e with MSoftBreak | MHardBreak | MCodeLike _ | MText _ | MHtml _ => true | _ => false end.
+
+  (* stack.push / stack.pop of the arm *)
+  Definition mk_stack (stack : list md_tag) (e : mev) : list md_tag :=
+    match e with
+    | MStart t => t :: stack
+    | MEndBreaking | MEndOther => tl stack                  (* stack.pop() *)
+    | _ => stack
+    end.
+
+  (* the tokens one event pushes, after the cursor has been advanced to tc; bs = bytes of the source *)
+  Definition mk_step (src : text) (bs : list N) (stack : list md_tag) (tc : nat) (e : mevent) : res (list token) :=
     match me_ev e with
-    | MSoftBreak => Ok ([mktok (span_new_with_len tc 1) (KNewline 1)], stack)
-    | MHardBreak => Ok ([mktok (span_new_with_len tc 1) (KNewline 2)], stack)
-    | MStart TList => Ok ([mktok (span_new_with_len tc 0) (KNewline 2)], TList :: stack)
-    | MStart t => Ok ([], t :: stack)
-    | MEndBreaking => Ok ([mktok (span_new_with_len tc 0) KParagraphBreak], tl stack)   (* stack.pop() *)
-    | MEndOther => Ok ([], tl stack)
-    | MCodeLike n => Ok ([unl_tok tc n], stack)
-    | MHtml n => Ok ([unl_tok tc n], stack)
+    | MSoftBreak => Ok [mktok (span_new_with_len tc 1) (KNewline 1)]
+    | MHardBreak => Ok [mktok (span_new_with_len tc 1) (KNewline 2)]
+    | MStart TList => Ok [mktok (span_new_with_len tc 0) (KNewline 2)]
+    | MStart _ => Ok []
+    | MEndBreaking => Ok [mktok (span_new_with_len tc 0) KParagraphBreak]
+    | MEndOther => Ok []
+    | MCodeLike n => if n =? 0 then Ok [] else Ok [unl_tok tc n]        (* `if chunk_len == 0 { continue; }` (a37d1cc) *)
+    | MHtml n => Ok [unl_tok tc n]
     | MText n =>
         (* text.chars().count().min(source_str[range.clone()].chars().count())  (548c418) *)
         do chunk_len <- md_chunk_len bs (me_rs e) (me_re e) n;
-        if chunk_len =? 0 then Ok ([], stack)
-        else do o <- mk_text src stack tc chunk_len; Ok (o, stack)
-    | MOther => Ok ([], stack)
+        if chunk_len =? 0 then Ok []
+        else mk_text src stack tc chunk_len
+    | MOther => Ok []
     end.
 
-  Fixpoint mk_loop (src : text) (bs : list N) (evs : list mevent) (tb tc : nat) (stack : list md_tag)
-    : res (list token) :=
+  (* the loop.  cu = covered_until, lastend = tokens.last().map(|t| t.span.end) *)
+  Definition cu_top (cu : nat) (lastend : option nat) : nat :=
+    match lastend with Some x => Nat.max cu x | None => cu end.
+  Definition last_end (out : list token) (lastend : option nat) : option nat :=
+    match rev out with t :: _ => Some (tend t) | [] => lastend end.
+
+  Fixpoint mk_loop (src : text) (bs : list N) (evs : list mevent) (tb tc cu : nat) (lastend : option nat)
+           (stack : list md_tag) : res (list token) :=
     match evs with
     | [] => Ok []
     | e :: rest =>
         do '(tb, tc) <- md_advance bs tb tc (me_rs e);
-        do '(out, stack) <- mk_step src bs stack tc e;
-        do r <- mk_loop src bs rest tb tc stack;
-        Ok (out ++ r)
+        let cu := cu_top cu lastend in                       (* if let Some(last) = tokens.last() { .. max .. } *)
+        if is_leaf (me_ev e) && (tc <? cu) then               (* `continue` of the guard *)
+          mk_loop src bs rest tb tc cu lastend stack
+        else
+          do out <- mk_step src bs stack tc e;
+          do r <- mk_loop src bs rest tb tc cu (last_end out lastend) (mk_stack stack (me_ev e));
+          Ok (out ++ r)
     end.
 
   (* if matches!(tokens.last(), Some(Newline(_) | ParagraphBreak)) && source.last() != Some(&'\n') { tokens.pop(); } *)
@@ -155,7 +177,7 @@ Definition remove_wikilink_brackets (ts : list token) : list token :=
 
 (* ---------- Markdown::parse ---------- *)
 Definition markdown_raw (u : uni) (ilt : bool) (src : text) (evs : list mevent) : res (list token) :=
-  mk_loop u ilt src (encode src) evs 0 0 [].
+  mk_loop u ilt src (encode src) evs 0 0 0 None [].
 Definition markdown_parse (u : uni) (ilt : bool) (src : text) (evs : list mevent) : res (list token) :=
   do toks <- markdown_raw u ilt src evs;
   Ok (remove_wikilink_brackets (remove_hidden_wikilink_tokens (mk_pop_last src toks))).
@@ -166,32 +188,62 @@ Definition document_markdown (u : uni) (ilt : bool) (src : text) (evs : list mev
   document_passes src toks.
 
 (* ---------- the contract of the event stream (specification side; decidable, evaluated by the driver too) ----------
-   tb = the largest range start seen so far (= traversed_bytes), hi = the largest range end of a token-bearing
-   leaf event seen so far.
-   (K1) every range is start <= end on char boundaries of the source;
-   (K2) a leaf event that makes a covering token (SoftBreak, HardBreak, Code/Math, Html, Text) starts at or after
-        every earlier range start and at or after the end of every earlier such leaf: leaf ranges are ordered and
-        disjoint;
-   (K3) its source range holds at least as many characters as the token claims: 1 for the breaks, the payload's
-        length (non-empty) for Code/Math/Html; nothing is asked of Text (its claim is clamped by the code). *)
-Definition leaf_need (e : mev) : option (nat * bool) :=      (* (chars claimed, must be non-empty) *)
-  match e with
-  | MSoftBreak | MHardBreak => Some (1, true)
-  | MCodeLike n | MHtml n => Some (n, true)
-  | MText _ => Some (0, false)
+   Since 8b26ba4 the code itself skips a token-bearing ("leaf") event that starts before the end of the tokens pushed
+   so far: ORDER and DISJOINTNESS of the leaf events are no longer assumed (the old clause K2 is gone).  What is
+   still asked of pulldown-cmark, and only of the events the guard does NOT skip:
+   (K1) every range starts on a char boundary of the source; the range of a Text event is start <= end on char
+        boundaries (the code slices the source string by it);
+   (K3) a leaf event that pushes a covering token: its range ends on a char boundary at or after the cursor
+        (= the largest range start so far) and the source between the cursor and that end holds at least the
+        characters the token claims — 1 for the breaks, the payload for Code / Math / Html, the clamped length for
+        Text; an Html payload is not empty (an empty Code / Math payload is skipped by the code since a37d1cc).
+   The contract is a shadow run of the loop's bookkeeping (cursor, covered_until, tag stack) that needs no lexing:
+   `ext` = the end of the last token an event pushes, if it pushes one. *)
+Definition text_pushes (ilt : bool) (stack : list md_tag) : bool :=
+  match stack with
+  | [] => true
+  | TCodeBlock :: _ => true
+  | TLink :: _ => true
+  | tag :: _ => tag_is_prose ilt tag
+  end.
+(* (characters claimed by the covering token, or None when the event pushes no covering token) *)
+Definition claim (ilt : bool) (bs : list N) (stack : list md_tag) (e : mevent) : option nat :=
+  match me_ev e with
+  | MSoftBreak | MHardBreak => Some 1
+  | MCodeLike n => if n =? 0 then None else Some n
+  | MHtml n => Some n
+  | MText n =>
+      let cl := Nat.min n (count_chars (slice bs (me_rs e) (me_re e))) in
+      if cl =? 0 then None else if text_pushes ilt stack then Some cl else None
   | _ => None
   end.
-Fixpoint md_contractb (bs : list N) (tb hi : nat) (evs : list mevent) : bool :=
+Definition ext (ilt : bool) (bs : list N) (stack : list md_tag) (tc : nat) (e : mevent) : option nat :=
+  match me_ev e with
+  | MStart TList | MEndBreaking => Some tc                 (* zero-width *)
+  | _ => match claim ilt bs stack e with Some n => Some (tc + n) | None => None end
+  end.
+Fixpoint md_contractb (ilt : bool) (bs : list N) (tb cu : nat) (lastend : option nat) (stack : list md_tag)
+         (evs : list mevent) : bool :=
   match evs with
   | [] => true
   | e :: rest =>
-      (me_rs e <=? me_re e) && is_boundary bs (me_rs e) && is_boundary bs (me_re e) &&
-      match leaf_need (me_ev e) with
-      | Some (n, nonempty) =>
-          (tb <=? me_rs e) && (hi <=? me_rs e) && (n <=? count_chars (slice bs (me_rs e) (me_re e))) &&
-          (if nonempty then 1 <=? n else true) &&
-          md_contractb bs (Nat.max tb (me_rs e)) (me_re e) rest
-      | None => md_contractb bs (Nat.max tb (me_rs e)) hi rest
-      end
+      let tb' := Nat.max tb (me_rs e) in
+      let tc' := char_index bs tb' in
+      let cu' := cu_top cu lastend in
+      is_boundary bs (me_rs e) &&
+      if is_leaf (me_ev e) && (tc' <? cu') then md_contractb ilt bs tb' cu' lastend stack rest
+      else
+        (match me_ev e with
+         | MText _ => (me_rs e <=? me_re e) && is_boundary bs (me_re e)
+         | _ => true
+         end) &&
+        (match claim ilt bs stack e with
+         | Some n => (tb' <=? me_re e) && is_boundary bs (me_re e) && (n <=? count_chars (slice bs tb' (me_re e))) && (1 <=? n)
+         | None => true
+         end) &&
+        md_contractb ilt bs tb' cu'
+          (match ext ilt bs stack tc' e with Some x => Some x | None => lastend end)
+          (mk_stack stack (me_ev e)) rest
   end.
-Definition md_contract (src : text) (evs : list mevent) : Prop := md_contractb (encode src) 0 0 evs = true.
+Definition md_contract (ilt : bool) (src : text) (evs : list mevent) : Prop :=
+  md_contractb ilt (encode src) 0 0 None [] evs = true.
